@@ -17,6 +17,7 @@ EXPLANATION = ("The magnitude is a solver variable; log10/ln/exp/10**x are unint
 ASSUMPTIONS = unitkit.UNITS_STUB_TEXT + [
     "log10, ln, exp, pow are uninterpreted; only inverse/positivity ground axioms are used (true values of the functions are outside the claim)",
     "linear -> logarithmic conversions assume x > 0; level subtraction assumes a > b",
+    "temperatures are claimed at or above absolute zero (the property's 'physically meaningful range')",
     "the direct B<->Np constant (1.151277918) is not compared with ln(10)/2: C05 does not state it",
 ]
 OUTSIDE = ['array magnitudes', 'binary64 rounding', 'the B<->Np constant', 'temperatures inside compound units (refused by the library)']
@@ -116,7 +117,8 @@ def scenarios(tier, seed):
     temps = ['K', 'Cel', 'degF', 'degR']
     for u in temps + ['mK', 'kK', 'MK']:
         for w in temps + (['mK', 'kK'] if u in temps else []):
-            S.append(Scenario(f'temp/{u}->{w}', TEMP_SRC, {'x': 'real'}, consts={'u': u, 'w': w}, preamble=PRE,
+            zero = {'Cel': -273.15, 'degF': -459.67}.get(u, 0)
+            S.append(Scenario(f'temp/{u}->{w}', TEMP_SRC, {'x': 'real'}, [f'v.x >= {zero}'], consts={'u': u, 'w': w}, preamble=PRE,
                               what=f'temperature conversion {u} -> {w}', samples=2))
     R2 = {'x': 'real', 'y': 'real'}
     for w, lst in DEFS.items():
@@ -147,7 +149,7 @@ def scenarios(tier, seed):
                               what=f'level addition in {wp}{w}', samples=2))
             S.append(Scenario(f'sub/{wp}{w}', SUB_SRC, {'a': 'real', 'b': 'real'}, ['v.a > v.b'], consts={'w': wp + w, 'scale': wscale}, preamble=PRE,
                               what=f'level subtraction in {wp}{w}', samples=2))
-    S.append(Scenario('canary/temp', TEMP_SRC, {'x': 'real'}, consts={'u': 'Cel', 'w': 'degR'}, preamble=PRE.replace('273.15', '273.25'), canary=True))
+    S.append(Scenario('canary/temp', TEMP_SRC, {'x': 'real'}, ['v.x >= 0'], consts={'u': 'Cel', 'w': 'degR'}, preamble=PRE.replace('273.15', '273.25'), canary=True))
     S.append(Scenario('canary/log', LOG_SRC, R2, ['v.x > 0'], consts={'u': 'W', 'w': 'dBm', 'k': 2, 'ref': 1e-3, 'scale': 10.0, 'kind': 'log10'}, preamble=PRE, canary=True))
     S.append(Scenario('canary/add', ADD_SRC, {'a': 'real', 'b': 'real'}, consts={'w': 'dBm', 'scale': 20.0}, preamble=PRE, canary=True))
     return S
